@@ -7,3 +7,24 @@ pub enum Variable {
 }
 #[derive(Debug)]
 pub struct ExecError;
+
+/// stand-in for the interpreter's `Type` (R-QUERYIMPL controls): same def path `variable::r#type::Type::<query>`
+pub mod r#type {
+    #[derive(Clone, PartialEq, Debug)]
+    pub enum Type {
+        Int,
+        Array(Box<Type>),
+        Never,
+    }
+    impl Type {
+        pub fn element_type(&self) -> Option<Type> {
+            match self {
+                Type::Array(t) => Some((**t).clone()),
+                _ => None,
+            }
+        }
+        pub fn matches(&self, other: &Type) -> bool {
+            self == other || *self == Type::Never
+        }
+    }
+}
